@@ -17,6 +17,9 @@ import Restful.Lemmas.StateShape
 import Restful.Lemmas.RouteUnique
 import Restful.Lemmas.SelPath
 import Restful.Lemmas.TieRequest
+import Restful.Lemmas.TieImpMatch
+import Restful.Lemmas.TieImpCurlyTok
+import Restful.Lemmas.TieImpPath
 namespace Restful
 namespace Props
 variable (E : ReEnv)
@@ -417,3 +420,11 @@ theorem C01_service_ids_witness :
 
 end Props
 end Restful
+
+-- the imperative functions this property's model rests on, tied to their statement-by-statement
+-- translation (tools/goimp, Gen/Imp.lean, regenerated on every run):
+-- also: Restful.TieImp.match_tokens
+-- also: Restful.TieImp.T2.is_tail_wildcard
+-- also: Restful.TieImp.T2.regular_matches
+-- also: Restful.TieImp.T2.tokenize_path
+-- also: Restful.TieImp.T2.concat_path
